@@ -297,10 +297,9 @@ Proof. exact TrieOps.existsb_map. Qed.
 (* ---------- the duplicate-detection pass ---------- *)
 Lemma pass1_spec : forall s t pre l seen dups acc err,
   sorted_pes seen = true -> wf_pes seen = true -> sorted_pes dups = true -> wf_pes dups = true ->
-  items_wf s t l ->
+  items_wf s t l -> forallb (has_pe s t) l = true ->
   exists dups' new,
-    fs_pass1 s t pre l seen dups acc err =
-      (dups', acc ++ new, err || negb (forallb (has_pe s t) l)) /\
+    fs_pass1 s t pre l seen dups acc err = (dups', acc ++ new, err) /\
     sorted_pes dups' = true /\ wf_pes dups' = true /\
     (forall x, wf_pe x = true ->
        pes_mem x dups' = pes_mem x dups
@@ -310,20 +309,15 @@ Lemma pass1_spec : forall s t pre l seen dups acc err,
        (pes_mem e seen && (1 <=? List.length (occ s t e l))
         || (2 <=? List.length (occ s t e l))) = true).
 Proof.
-  intros s t pre l. induction l as [|x l IH]; intros seen dups acc err Hs1 Hs2 Hd1 Hd2 Hwf.
-  - exists dups, []. simpl. rewrite app_nil_r, orb_false_r. repeat split; auto.
+  intros s t pre l. induction l as [|x l IH]; intros seen dups acc err Hs1 Hs2 Hd1 Hd2 Hwf Hhas.
+  - exists dups, []. simpl. rewrite app_nil_r. repeat split; auto.
     + intros y Hy. rewrite andb_false_r, !orb_false_r. reflexivity.
     + intros q [].
   - apply items_wf_cons in Hwf. destruct Hwf as [Hwx Hwf].
-    simpl fs_pass1. simpl forallb. unfold has_pe at 1.
-    destruct (list_item_to_pe s t x) as [e|] eqn:Ee.
-    2:{ destruct (IH seen dups acc true Hs1 Hs2 Hd1 Hd2 Hwf) as (d' & new & Heq & Hsd & Hwd & Hmem & Hnew).
-        exists d', new. rewrite Heq. simpl. rewrite orb_true_r.
-        assert (Hocc : forall y, occ s t y (x :: l) = occ s t y l).
-        { intros y. rewrite occ_cons. unfold pe_matches. rewrite Ee. reflexivity. }
-        repeat split; auto.
-        - intros y Hy. rewrite Hocc. apply Hmem. exact Hy.
-        - intros q Hq. destruct (Hnew q Hq) as (e & H1 & H2 & H3). exists e. rewrite Hocc. auto. }
+    simpl in Hhas. apply andb_true_iff in Hhas. destruct Hhas as [Hx Hhas].
+    unfold has_pe in Hx.
+    destruct (list_item_to_pe s t x) as [e|] eqn:Ee; [|discriminate]. clear Hx.
+    cbn [fs_pass1]. rewrite (list_item_pe_or_zero_some s t x e Ee). cbv zeta.
     assert (He : wf_pe e = true) by (apply Hwx; reflexivity).
     assert (Hocc : forall y, wf_pe y = true ->
               List.length (occ s t y (x :: l)) =
@@ -334,7 +328,7 @@ Proof.
     destruct (pes_mem e seen) eqn:Eseen.
     + rewrite (pes_has_spec e dups Hd1 Hd2 He).
       destruct (pes_mem e dups) eqn:Edups.
-      * destruct (IH seen dups acc err Hs1 Hs2 Hd1 Hd2 Hwf) as (d' & new & Heq & Hsd & Hwd & Hmem & Hnew).
+      * destruct (IH seen dups acc err Hs1 Hs2 Hd1 Hd2 Hwf Hhas) as (d' & new & Heq & Hsd & Hwd & Hmem & Hnew).
         exists d', new. rewrite Heq. simpl. repeat split; auto.
         -- intros y Hy. rewrite (Hmem y Hy), (Hocc y Hy).
            destruct (peeqb y e) eqn:Eye; [|reflexivity].
@@ -344,7 +338,7 @@ Proof.
            destruct (peeqb e0 e); [|exact H3].
            destruct (pes_mem e0 seen), (List.length (occ s t e0 l)) as [|[|n]]; simpl in *; auto.
       * destruct (pes_insert_sorted e dups Hd1 Hd2 He) as [Hd1' Hd2'].
-        destruct (IH seen (pes_insert e dups) (acc ++ [pre ++ [e]]) err Hs1 Hs2 Hd1' Hd2' Hwf)
+        destruct (IH seen (pes_insert e dups) (acc ++ [pre ++ [e]]) err Hs1 Hs2 Hd1' Hd2' Hwf Hhas)
           as (d' & new & Heq & Hsd & Hwd & Hmem & Hnew).
         exists d', ((pre ++ [e]) :: new). rewrite Heq. rewrite <- app_assoc. simpl.
         repeat split; auto.
@@ -361,7 +355,7 @@ Proof.
               destruct (peeqb e0 e); [|exact H3].
               destruct (pes_mem e0 seen), (List.length (occ s t e0 l)) as [|[|n]]; simpl in *; auto.
     + destruct (pes_insert_sorted e seen Hs1 Hs2 He) as [Hs1' Hs2'].
-      destruct (IH (pes_insert e seen) dups acc err Hs1' Hs2' Hd1 Hd2 Hwf)
+      destruct (IH (pes_insert e seen) dups acc err Hs1' Hs2' Hd1 Hd2 Hwf Hhas)
         as (d' & new & Heq & Hsd & Hwd & Hmem & Hnew).
       exists d', new. rewrite Heq. simpl. repeat split; auto.
       * intros y Hy. rewrite (Hmem y Hy), (Hocc y Hy).
